@@ -22,6 +22,10 @@
 //!      abstract graphs with typed lookup nodes whose subtables are shared between
 //!      lookups of the same / of different lookup types, and real GSUB / GPOS tables with
 //!      byte-identical subtables under several lookups (shared.rs).
+//!  (f) NEAR-TWIN objects: nodes with identical byte images (literal 0xFF where a twin has
+//!      placeholder bytes) differing in ONE of link width / position / target / adjustment /
+//!      number of links, plus true twins; all layouts of a 4-byte core as ordered pairs and
+//!      triples, and sampled mutation graphs (twins.rs). Guards object de-duplication.
 //! Oracle: `spec::resolve` (graphs); GPOS: every input glyph is looked up through
 //! the output coverage tables, is covered by exactly one output subtable and
 //! reaches its own pair set / class record / anchors with every input value.
@@ -37,6 +41,7 @@ pub mod gpos;
 pub mod gposdev;
 pub mod shared;
 pub mod spec;
+pub mod twins;
 
 use serde_json::{json, Value};
 use spec::{Link, NodeSpec, PayloadCache, Spec};
@@ -56,7 +61,7 @@ pub fn run(ctx: &mut Ctx, _args: &Args) {
     ctx.rule = "graph cases: the object graph has >= 1 link and the plain topological (Kahn) order overflowed, \
                 i.e. the recorded stage trace is longer than [kahn] (shortest-distance / space assignment / \
                 isolation+duplication / PackingFailed paths ran); GPOS cases: the table exceeds 64 KiB in at \
-                least one lookup so that split_check or promote ran (gposdev: the output has more subtables than the input or an extension lookup; shared-subtable tables: at least one lookup reads back promoted). Typed-lookup graphs count as graph cases. Digest = the abstract spec (sizes, links, \
+                least one lookup so that split_check or promote ran (gposdev: the output has more subtables than the input or an extension lookup; shared-subtable tables: at least one lookup reads back promoted). Typed-lookup graphs count as graph cases. Near-twin cases (twins.rs): the graph holds at least two nodes with the same byte image (placeholder bytes = literal 0xFF bytes) that differ in a link's width / position / target / adjustment or in the number of links; digest = spec + payload bytes. Digest = the abstract spec (sizes, links, \
                 widths, positions, adjustments) resp. the GPOS recipe"
         .into();
     ctx.assumptions = vec![
@@ -69,6 +74,10 @@ pub fn run(ctx: &mut Ctx, _args: &Args) {
     // debugging aid: VF_C05_ONLY=gposdev runs only that workload
     if std::env::var("VF_C05_ONLY").map(|v| v == "gposdev").unwrap_or(false) {
         gposdev::run(ctx);
+        return;
+    }
+    if std::env::var("VF_C05_ONLY").map(|v| v == "twins").unwrap_or(false) {
+        twins::run(ctx);
         return;
     }
     if std::env::var("VF_C05_ONLY").map(|v| v == "shared").unwrap_or(false) {
@@ -88,9 +97,11 @@ pub fn run(ctx: &mut Ctx, _args: &Args) {
     let t5 = ctx.elapsed_s();
     shared::run(ctx);
     let t6 = ctx.elapsed_s();
+    twins::run(ctx);
+    let t7 = ctx.elapsed_s();
     ctx.extra.insert(
         "workload_seconds_this_shard".into(),
-        json!({"exhaustive": t1 - t0, "random": t2 - t1, "big24": t3 - t2, "gpos": t4 - t3, "gposdev": t5 - t4, "shared": t6 - t5}),
+        json!({"exhaustive": t1 - t0, "random": t2 - t1, "big24": t3 - t2, "gpos": t4 - t3, "gposdev": t5 - t4, "shared": t6 - t5, "twins": t7 - t6}),
     );
 }
 
@@ -99,6 +110,8 @@ pub fn run(ctx: &mut Ctx, _args: &Args) {
 pub struct CaseOut {
     pub outcome: &'static str,
     pub trace: String,
+    /// on success: logical nodes minus distinct output positions (objects the compiler merged), when nothing was duplicated
+    pub merged_objects: usize,
 }
 
 fn compress_trace(t: &[&'static str]) -> String {
@@ -134,7 +147,7 @@ fn compress_trace(t: &[&'static str]) -> String {
 pub fn run_graph_case(ctx: &mut Ctx, spec: &Spec, workload: &str, case_id: &str) -> CaseOut {
     if let Err(e) = spec.well_formed() {
         ctx.inconclusive(format!("generator produced a malformed spec ({}): {}", case_id, e));
-        return CaseOut { outcome: "harness", trace: String::new() };
+        return CaseOut { outcome: "harness", trace: String::new(), merged_objects: 0 };
     }
     ctx.eval();
     ctx.count(&format!("{}:cases", workload), 1);
@@ -157,9 +170,11 @@ pub fn run_graph_case(ctx: &mut Ctx, spec: &Spec, workload: &str, case_id: &str)
         ctx.nontrivial(spec.digest());
         ctx.count("nontrivial_cases", 1);
     }
+    let mut merged_objects = 0usize;
     let outcome: &'static str = match res {
         Ok(Ok(bytes)) => match spec::resolve(spec, &bytes) {
             Ok(r) => {
+                merged_objects = spec.nodes.len().saturating_sub(r.distinct_positions);
                 ctx.count("outcome:success_all_offsets_resolved", 1);
                 ctx.count("links_resolved", r.links_followed);
                 if r.duplicates > 0 {
@@ -231,7 +246,7 @@ pub fn run_graph_case(ctx: &mut Ctx, spec: &Spec, workload: &str, case_id: &str)
             "panic"
         }
     };
-    CaseOut { outcome, trace }
+    CaseOut { outcome, trace, merged_objects }
 }
 
 /// Classes of the two open findings. Both are decided from (panic site,
